@@ -192,6 +192,17 @@ def shift_tabulate(ctx) -> bool | None:
                                 elif want_f is not None and g.get("fold") != want_f:
                                     bad.append(f"{label}: the {'second' if g.get('fold') else 'first'} occurrence of the repeated {want_w.time()} (expected the "
                                                f"{'second' if want_f else 'first'})")
+                # amounts given by position: add(*a) and subtract(*-a) must be the same value (the two signatures list the units in one order)
+                if meth == "subtract" and "add" in m.methods(cls):
+                    wld = wallstub.World(m, cls, transition=None, extra=dam.methods("Date") if cls == "DateTime" else None, interpret_add=True)
+                    x = wld.date(_dt.date(2021, 1, 31)) if cls == "Date" else wld.datetime(_dt.datetime(2021, 1, 31, 12, 0), 0)
+                    pos = [1, 2, 3, 4] + ([5, 6, 7, 8] if cls == "DateTime" else [])
+                    for k in range(1, len(pos) + 1):
+                        a, b = wld.call(x, "add", pos[:k], {}), wld.call(x, "subtract", [-v for v in pos[:k]], {})
+                        n += 1
+                        key = "_date" if cls == "Date" else "_wall"
+                        if vars(a).get(key) != vars(b).get(key):
+                            bad.append(f"add{tuple(pos[:k])} -> {vars(a).get(key)} but subtract{tuple(-v for v in pos[:k])} -> {vars(b).get(key)} (amounts by position)")
             except wallstub.ERRORS + (ValueError,) as e:
                 ctx.unverified("SHIFT.tabulated", f"{cls}.{meth}", f"outside the checker's interpreter: {type(e).__name__}: {e}", m.loc(m.func(f"{cls}.{meth}")))
                 ok_all = None if ok_all is not False else False
